@@ -46,3 +46,7 @@ pub struct CsptpState {
     /// Whether the current frequency is traceable.
     pub frequency_traceable: bool,
 }
+
+#[cfg(all(test, pendulum_project_ntpd_rs_verif))]
+#[path = "/verif/harness/statime-csptp/hook_lib.rs"]
+mod verif_hook;
